@@ -24,49 +24,59 @@ def run(ctx):
     # which findings may share a diagnostic: corpus/c13 tags every dereference with its nil source (//G<n>)
     import os
     import re
-    cd = os.path.join(common.VERIF, "corpus", "c13")
-    tags = {}
-    for root, _, files in os.walk(cd):
-        for f in files:
-            if f.endswith(".go"):
-                rel = os.path.relpath(os.path.join(root, f), cd)
-                for i, l in enumerate(open(os.path.join(root, f)).read().splitlines(), 1):
-                    m = re.search(r"//(G\d+)\b", l)
-                    if m:
-                        tags[(rel, i)] = m.group(1)
-    gbad = []
+    cd0 = os.path.join(common.VERIF, "corpus", "c13")
+    from . import texture
+    import shutil
+    tscratch = ctx.scratch()
+    gbad_all, tags = [], {}
+    # the corpus as written, and with a `%` in every file name (a path must never be used as a format string)
+    for cd in (cd0, texture.make(cd0, "percent", tscratch)):
+        tags = {}
+        for root, _, files in os.walk(cd):
+            for f in files:
+                if f.endswith(".go"):
+                    rel = os.path.relpath(os.path.join(root, f), cd)
+                    for i, l in enumerate(open(os.path.join(root, f)).read().splitlines(), 1):
+                        m = re.search(r"//(G\d+)\b", l)
+                        if m:
+                            tags[(rel, i)] = m.group(1)
+        gbad = []
 
-    def norm(a):
-        # entries are relative to the working directory of the tool (here /verif), positions to the module
-        for basedir in (cd, common.VERIF, os.getcwd()):
-            q = os.path.normpath(os.path.join(basedir, a))
-            if os.path.exists(q):
-                return os.path.relpath(q, cd)
-        return os.path.normpath(a)
-    # full file paths, so that the entries of an 'other place(s)' list name their file unambiguously
-    ru, e1 = wt.analyze(cd, flags={"group-error-messages": "false", "print-full-file-path": "true"})
-    rg, e2 = wt.analyze(cd, flags={"group-error-messages": "true", "print-full-file-path": "true"})
-    if ru is None or rg is None:
-        gbad.append("run failed: %s %s" % (e1, e2))
-    else:
-        ulines = sorted((d["file"], d["line"]) for d in ru["diags"] or [])
-        seen = []
-        for d in rg["diags"] or []:
-            others = (re.findall(r"other place\(s\): (.*)\.\)", d["message"]) or [""])[0]
-            ls = [(d["file"], d["line"])] + [(norm(a), int(b)) for (a, b) in re.findall(r"\"([^\"]+\.go):(\d+):\d+\"", others)]
-            seen += ls
-            ts = set(tags.get(x, "untagged:%s:%d" % x) for x in ls)
-            if len(ts) > 1:
-                gbad.append("the diagnostic at %s:%d groups %s whose nil sources differ (%s)" % (d["file"], d["line"], ls, sorted(ts)))
-        if sorted(seen) != ulines:
-            gbad.append("locations reported with grouping off %s, with grouping on (positions and lists) %s" % (ulines, sorted(seen)))
-        # and findings with the same nil source in one package are grouped (the feature is still there)
-        heads = {}
-        for d in rg["diags"] or []:
-            heads.setdefault((d["pkg"], tags.get((d["file"], d["line"]))), []).append(d["line"])
-        for (pk, t), ls in heads.items():
-            if t and t.startswith("G") and len(ls) > 1 and t not in UNGROUPED_OK:
-                gbad.append("findings with the same nil source %s are reported as %d separate diagnostics (lines %s)" % (t, len(ls), ls))
+        def norm(a):
+            # entries are relative to the working directory of the tool (here /verif), positions to the module
+            for basedir in (cd, common.VERIF, os.getcwd()):
+                q = os.path.normpath(os.path.join(basedir, a))
+                if os.path.exists(q):
+                    return os.path.relpath(q, cd)
+            return os.path.normpath(a)
+        # full file paths, so that the entries of an 'other place(s)' list name their file unambiguously
+        ru, e1 = wt.analyze(cd, flags={"group-error-messages": "false", "print-full-file-path": "true"})
+        rg, e2 = wt.analyze(cd, flags={"group-error-messages": "true", "print-full-file-path": "true"})
+        if ru is None or rg is None:
+            gbad.append("run failed: %s %s" % (e1, e2))
+        else:
+            ulines = sorted((d["file"], d["line"]) for d in ru["diags"] or [])
+            seen = []
+            for d in rg["diags"] or []:
+                others = (re.findall(r"other place\(s\): (.*)\.\)", d["message"]) or [""])[0]
+                ls = [(d["file"], d["line"])] + [(norm(a), int(b)) for (a, b) in re.findall(r"\"([^\"]+\.go):(\d+):\d+\"", others)]
+                seen += ls
+                ts = set(tags.get(x, "untagged:%s:%d" % x) for x in ls)
+                if len(ts) > 1:
+                    gbad.append("the diagnostic at %s:%d groups %s whose nil sources differ (%s)" % (d["file"], d["line"], ls, sorted(ts)))
+            if sorted(seen) != ulines:
+                gbad.append("locations reported with grouping off %s, with grouping on (positions and lists) %s" % (ulines, sorted(seen)))
+            # and findings with the same nil source in one package are grouped (the feature is still there)
+            heads = {}
+            for d in rg["diags"] or []:
+                heads.setdefault((d["pkg"], tags.get((d["file"], d["line"]))), []).append(d["line"])
+            for (pk, t), ls in heads.items():
+                if t and t.startswith("G") and len(ls) > 1 and t not in UNGROUPED_OK:
+                    gbad.append("findings with the same nil source %s are reported as %d separate diagnostics (lines %s)" % (t, len(ls), ls))
+
+        gbad_all += [("[file names with %] " if cd != cd0 else "") + b for b in gbad]
+    shutil.rmtree(tscratch, ignore_errors=True)
+    gbad = gbad_all
     ctx.obligation("whole tool on corpus/c13 (%d tagged dereferences: same-named methods / functions with same-named locals, interleaved sources): every ungrouped location appears once, only findings with the same nil source share a diagnostic" % len(tags), bool(tags) and not gbad)
     for b in gbad[:2]:
         ctx.violation("grouping", "C13 fails on the real tool: %s\nreplay: bin/harness analyze -dir corpus/c13 [-flag group-error-messages=false]\n" % b)
